@@ -173,7 +173,7 @@ def run_text(ctx, g, gflags, engines, w, rng, ctx_class=False, only_repr=None):
 
 
 def windows(rng, w):
-    pres = ['', 'ab', 'zz\n', 'q\n\n  ', 'foo bar\nx', '12', '<', 'x\r\n']
+    pres = ['', 'ab', 'zz\n', 'q\n\n  ', 'foo bar\nx', '12', '<', 'x\r\n', '\n', '\nab', '\n ', ' ', 'a\nb\nc ']
     posts = ['', 'cd', '\nrest', '9', '>', ' tail\n']
     out = []
     for _ in range(3):
